@@ -47,7 +47,7 @@ PROP = dict(
                "because every call runs in a killable worker process.",
     level_note="Trusted: TLC; the class alphabets (8 character classes, 10 token kinds, 13 argument classes) as representatives of all "
                "characters/tokens; the harness' printer (quoting rules) and its reference expansion of {$VAR}/{%VAR%}. Not covered: inputs that are "
-               "not valid UTF-8, files larger than a few lines, Windows path separators, the JSON <-> Casketfile conversion (casketfile/json.go).",
+               "not valid UTF-8, files larger than a few lines, Windows path separators. The JSON <-> Casketfile conversion and the Dispenser calls are covered by the extension CasketJson.tla (small ASTs over 11 argument classes).",
     assumptions=["the parser distinguishes characters only by the 8 classes of Lexer.tla and tokens only by the kinds of ParserTotal.tla",
                  "a parse that does not return within 6 s (VERIF_C10_DEADLINE) for an input of a few dozen tokens does not terminate",
                  "well-formed = the documented syntax: '{' ends the line it is on, '}' stands alone, tokens equal to '{' or '}' are not arguments, "
